@@ -23,7 +23,8 @@ SEED_A = """seed deck a
 1 1 -2.7 -1 2 imp:n=1
 2 2 0.05 -1 -2 imp:n=1
 3 0 1 -3 imp:n=1
-4 0 3 imp:n=0
+4 0 3 #5 imp:n=0
+5 like 1 but rho -1.5 trcl=(20 0 0)
 
 1 so 3
 2 7 px 0.5
@@ -49,10 +50,36 @@ m1 13027 1
 m2 8016 1
 imp:n 1 1 2 0 1 2
 """
+SEED_C = """seed deck c
+1 0 -1 fill=1 (1)
+2 0 #(-1:2)
+3 0 2
+10 1 -2.7 -11 12 -13 14 lat=1 u=1 fill=-1:1 0:1 0:0 2 3 2 3 2 3
+21 2 -1.5 -21 u=2
+22 0 21 u=2
+31 1 -2.7 -5.1 u=3
+32 0 #31 u=3
+
+1 rpp -4 4 -3 3 -2 2
+2 so 9
+5 box -1 -1 -1 2 0 0 0 2 0 0 0 2
+11 px 1
+12 px -1
+13 py 1
+14 py -1
+21 cz 0.5
+
+*tr1 0.25 0 0 30 60 90 120 30 90 90 90 0
+m1 13027 1
+m2 8016 1 1001 2
+imp:n 1 1 0 1 4r
+"""
 
 
 def respell(block, words, j):
     if block == 0:
+        if j >= 1 and words[j - 1] == 'rho':       # LIKE n BUT RHO x ('=' and blank are equivalent)
+            return True
         return j == 2 and words[1] != '0' and words[1] != 'like'
     if block == 1:
         k = 2 if words[1][0].isalpha() else 3
@@ -138,7 +165,7 @@ def explore(chk, seed_text, name, thorough, seed):
         if res['violation']:
             chk.violation({'clause': 'design:' + res['violation'], 'seed': name}, {'tlc': tlc._tail(res['stdout'], 40)})
         recs += [r for r in tlc.printed_json(res['stdout']) if isinstance(r, dict) and 'spelled' in r]
-        n = 6000 if thorough else 700
+        n = (6000 if thorough else 700) if name != 'C' else (2500 if thorough else 250)     # seed C has long cards: every step is dearer
         res = tlc.run('Cards', cfg, env={'SEED_FILE': path, 'MAXDEPTH': '6'}, workers=16, simulate=max(1, n // 16),
                       depth=8, seed=seed, timeout=1500)
         chk.add_tlc(res)
@@ -159,7 +186,7 @@ def main():
     jobs, meta = [], {}
     tid = 0
     try:
-        for name, text in (('A', SEED_A), ('B', SEED_B)):
+        for name, text in (('A', SEED_A), ('B', SEED_B), ('C', SEED_C)):
             base = conv.convert(text)
             if base['result'] != 'ok':
                 chk.machinery('seed deck %s does not convert: %r' % (name, base['error']))
@@ -221,9 +248,9 @@ def main():
         chk.sample({'rewritten_text': r['text'], 'last_rewrite': r['last'], 'depth': r['depth']})
     chk.extra['rule'] = ('distinct = distinct rewritten texts (every one differs from its seed in at least one line and the '
                          'rewrite touches a card that reaches the output)')
-    chk.extra['exhaustive_part'] = 'all single rewrites (depth 1) of both seed decks; rewrite sequences up to depth 6 sampled'
+    chk.extra['exhaustive_part'] = 'all single rewrites (depth 1) of the three seed decks; rewrite sequences up to depth 6 sampled'
     chk.extra['exhaustive'] = False
-    chk.assumptions += ['two seed decks (TR on a surface, materials, atom and mass densities; universes, FILL with transformation, LIKE-BUT, IMP data card)',
+    chk.assumptions += ['three seed decks (TR on a surface, materials, atom and mass densities; universes, FILL with transformation, LIKE-BUT, IMP data card; lattice with a FILL array, macrobodies and a facet, #( ), *TR card in degrees, nR shorthand)',
                         'compositions compared by content (type, numeric density, nuclides and numeric amounts), names canonicalised',
                         'number respellings limited to entries both MCNP and the converter read as reals (densities, surface and TR entries, fractions, importances)']
     return chk.finish()
